@@ -18,5 +18,6 @@ std::string diff_msgs(const Msg& lib, const Msg& oracle);
 // Marshal to bytes.
 bool lib_marshal(DBusMessage* m, std::string& out);
 // Append a Value through the public append API (append_basic / open/close container; fixed arrays via append_fixed_array if use_fixed).
-bool lib_append(DBusMessageIter* it, const Value& v, bool use_fixed);
+// use_fixed: 0 element by element, 1 one append_fixed_array block per array, 2 mixed (elements, two blocks, an empty block).
+bool lib_append(DBusMessageIter* it, const Value& v, int use_fixed);
 }
